@@ -311,12 +311,23 @@ def check_pass_value(ctx, R, classes):
         if cls.name not in PASS_THROUGH or cls.module.name != 'streamz.core':
             continue
         ebufs = element_buffers(ctx, cls)
-        up = cls.methods.get('update')
-        if up is None:
+        up = cls.find('update')
+        if up is None or up.cls is ctx.model.stream:
             continue
         con = ctx.construct(up)
         bad, n = None, 0
         detail = ''
+
+        def resolve(v, fn_node):
+            # a named temporary bound once to the entry:  entry = (x, metadata); self.queue.put(entry)
+            k = 0
+            while isinstance(v, ast.Name) and v.id != 'x' and k < 3:
+                defs = [s_.value for s_ in ast.walk(fn_node) if isinstance(s_, ast.Assign)
+                        and any(isinstance(t, ast.Name) and t.id == v.id for t in s_.targets)]
+                if len(defs) != 1:
+                    break
+                v, k = defs[0], k + 1
+            return v
         for st, status in ctx.paths(up, cls):
             evs = st.events
             if not _normal(evs, status):
@@ -332,6 +343,13 @@ def check_pass_value(ctx, R, classes):
                 if e.kind == 'ST' and e.a in ebufs and e.b and 'x' in e.b and e.c in ('append', 'put', 'put_nowait', 'setitem', 'assign', 'extend', 'appendleft', 'insert', 'add'):
                     n += 1
                     v = e.x.get('value')
+                    owner_fn = up.node
+                    for f_ in ctx.model.all_funcs():
+                        if v is not None and f_.node.lineno <= getattr(v, 'lineno', 0) <= getattr(f_.node, 'end_lineno', 0) \
+                                and f_.module is up.module and any(x_ is v for x_ in ast.walk(f_.node)):
+                            owner_fn = f_.node
+                            break
+                    v = resolve(v, owner_fn)
                     okv = isinstance(v, ast.Name) and v.id == 'x'
                     if isinstance(v, (ast.Tuple, ast.List)) and v.elts:
                         # (x, metadata) queue entries / [x] single slot
